@@ -51,15 +51,16 @@ def _row_spelling(row, k, st):
     if k == 0:
         t = _terms(row, st, False)
         return " " + t + " " if st["layout"] >= 3 else t
-    n = NUMT[st["num"] - 1][k] or FRAC[k]
+    neg = st["num"] == 6
+    n = ("-" + FRAC[12 - k]) if neg else (NUMT[st["num"] - 1][k] or FRAC[k])
     lay = st["layout"]
     if lay == 1:
         return n + _terms(row, st, True)
     if lay == 2:
-        return _terms(row, st, False) + "+" + n
+        return _terms(row, st, False) + ("" if neg else "+") + n
     if lay == 3:
         return n + " " + _terms(row, st, True)
-    return _terms(row, st, False) + " + " + n
+    return _terms(row, st, False) + ((" - " + FRAC[12 - k]) if neg else (" + " + n))
 
 
 def decode(c):
@@ -212,7 +213,7 @@ INVARIANT FullPairs
 
 def rand_style(rng):
     return {"pi": rng.randint(1, 6), "up": rng.random() < 0.3, "dp": rng.random() < 0.5,
-            "num": rng.randint(1, 5), "layout": rng.randint(1, 4)}
+            "num": rng.randint(1, 6), "layout": rng.randint(1, 4)}
 
 
 def run(ctx):
